@@ -205,7 +205,7 @@ def index_reference(ix, n):
     return False, [i for i in range(n) if ix['l'][i]]
 
 
-FORMS_A = ['dense', 'csc', 'csr', 'coo', 'fields', 'tuple', 'rows']
+FORMS_A = ['dense', 'csc', 'csr', 'coo', 'csc_array', 'fields', 'tuple', 'rows']
 
 
 def gen_basis_case(rng, big):
@@ -234,7 +234,7 @@ def gen_basis_case(rng, big):
     bases = []
     forms = list(FORMS_A)
     rng.shuffle(forms)
-    nforms = int(rng.integers(4, 8))
+    nforms = int(rng.integers(4, 9))
     for k, form in enumerate(forms[:nforms]):
         bases.append(make_base_spec(rng, 'a%d' % k, 'A', mats['A'], form, grid))
     for k in range(2):
@@ -274,6 +274,9 @@ def gen_basis_case(rng, big):
             case['ops'].append({'op': op, 'src': src, 'dst': dst})
             nm[dst] = nm[src]; cpx[dst] = cpx[src]; names.append(dst)
         else:
+            good = [x for x in names if 1 <= nm[x] <= npix and (style != 'tall' or x.startswith('a'))]
+            if good:
+                src = str(rng.choice(good))
             if rng.random() < 0.7:
                 case['ops'].append({'op': 'lstsq', 'src': src, 'c': enc_arr(gen_vec(rng, nm[src], cpx[src]))})
             else:
@@ -309,7 +312,7 @@ def make_base_spec(rng, name, mat, M, form, grid):
         d = np.array(d, dtype=M.dtype)
         spec['rows'] = {'idx': [ix[ip[j]:ip[j + 1]] for j in range(M.shape[1])],
                         'val': [enc_arr(d[ip[j]:ip[j + 1]]) for j in range(M.shape[1])],
-                        'fmt': str(rng.choice(['csr', 'csr', 'csc']))}
+                        'fmt': str(rng.choice(['csr', 'csr', 'csc', 'csr_array']))}
     spec['grid_arg'] = bool(grid and (form not in ('fields', 'tuple') or rng.random() < 0.5))
     return spec
 
@@ -337,8 +340,8 @@ def build_base(spec, M, grid):
         d = dec_arr(c['data'])
         T = sp.csc_matrix((d, np.array(c['indices'], dtype=np.int32), np.array(c['indptr'], dtype=np.int32)), shape=(npix, nmodes))
         return hcipy.ModeBasis(T, g), 'C14 new %s csc %d %d %s %s %s' % (name, npix, nmodes, fmt_ints(c['indptr']), fmt_ints(c['indices']), fmt_vec(d))
-    if form in ('csr', 'coo'):
-        T = sp.csr_matrix(M) if form == 'csr' else sp.coo_matrix(M)
+    if form in ('csr', 'coo', 'csc_array'):
+        T = sp.csr_matrix(M) if form == 'csr' else (sp.coo_matrix(M) if form == 'coo' else sp.csc_array(M))
         ip, ix, d = raw_csc(None, M, messy=False)
         return hcipy.ModeBasis(T, g), 'C14 new %s csc %d %d %s %s %s' % (name, npix, nmodes, fmt_ints(ip), fmt_ints(ix), fmt_vec(np.array(d, dtype=M.dtype)))
     if form in ('fields', 'tuple'):
@@ -353,7 +356,7 @@ def build_base(spec, M, grid):
         for idx, val in zip(r['idx'], r['val']):
             v = dec_arr(val)
             row = sp.csr_matrix((v, np.array(idx, dtype=np.int32), np.array([0, len(idx)], dtype=np.int32)), shape=(1, npix))
-            rows.append(row if r['fmt'] == 'csr' else row.tocsc())
+            rows.append(row if r['fmt'] == 'csr' else (row.tocsc() if r['fmt'] == 'csc' else sp.csr_array(row)))
         line = 'C14 new %s rows %d %s %s' % (name, npix, ';'.join(fmt_ints(i) for i in r['idx']),
                                             ';'.join(fmt_vec(dec_arr(v)) for v in r['val']))
         return hcipy.ModeBasis(rows, g), line
@@ -372,12 +375,17 @@ class BasisRun:
         self.numeric = {}      # line index -> ('vec', ndarray) compared with tolerance
         self.counts = {}
         self.skipped = 0
+        self.array_backed = set()
+        self.current_src = None
 
     def count(self, k):
         self.counts[k] = self.counts.get(k, 0) + 1
 
     def fail(self, key, what):
-        if self.case['npix'] == 0:
+        src = getattr(self, 'current_src', None)
+        if src is not None and src in self.array_backed:
+            key, what = 'sparse-array-input', 'basis built from a SciPy sparse *array*: ' + what
+        elif self.case['npix'] == 0:
             key, what = 'zero-pixels', 'basis over a grid of zero points: ' + what
         elif key.startswith('append-raises'):
             key = 'append-raises'
@@ -397,7 +405,7 @@ class BasisRun:
         for spec in case['bases']:
             M = mats[spec['mat']]
             form = spec['form']
-            sparse_expected = form in ('csc', 'csr', 'coo', 'rows')
+            sparse_expected = form in ('csc', 'csr', 'coo', 'csc_array', 'rows')
             self.count('form:' + form)
             try:
                 b, line = build_base(spec, M, grid)
@@ -416,6 +424,8 @@ class BasisRun:
                 self.fail('len', 'len(basis) = %d for %d modes' % (len(b), M.shape[1]))
             obj[spec['name']] = b
             ref[spec['name']] = (M, sparse_expected)
+            if form == 'csc_array' or (form == 'rows' and spec['rows']['fmt'] == 'csr_array'):
+                self.array_backed.add(spec['name'])
             self.emit(line, 'ok ' + desc(b.is_sparse, T))
         for op in case['ops']:
             self.step(op, obj, ref, grid)
@@ -441,8 +451,11 @@ class BasisRun:
         kind = op['op']
         names = [op[k] for k in ('src', 'a', 'b') if k in op]
         if any(n not in obj for n in names):
-            self.skipped += 1
+            self.count('op-skipped (operand unavailable after an earlier failure)')
             return
+        self.current_src = next((n for n in names if n in self.array_backed), None)
+        if self.current_src is not None and 'dst' in op:
+            self.array_backed.add(op['dst'])
         self.count('op:' + kind)
         if kind == 'lc':
             b = obj[op['src']]; M, spf = ref[op['src']]
@@ -570,8 +583,11 @@ class BasisRun:
         elif kind == 'lstsq':
             a = obj[op['src']]; Ma, sa = ref[op['src']]
             n = Ma.shape[1]
-            if n == 0 or Ma.shape[0] == 0 or np.linalg.matrix_rank(Ma) < n or np.linalg.cond(Ma) > COND_MAX:
-                self.count('lstsq:skipped-dependent-or-illconditioned')
+            if n == 0 or Ma.shape[0] == 0 or np.linalg.matrix_rank(Ma) < n:
+                self.count('lstsq:not-applicable (no or dependent modes)')
+                return
+            if np.linalg.cond(Ma) > COND_MAX:
+                self.count('lstsq:skipped-illconditioned')
                 self.skipped += 1
                 return
             sf = 'sparse' if sa else 'dense'
@@ -967,7 +983,7 @@ def execute(case):
 def run(ctx):
     ctx.rule = ('basis cases: one or two random dyadic matrices (npix 0..6 [thorough: ..10], 0..5 modes, densities 0/0.3/0.6/1, '
                 '30% complex), each built through 4-7 of the input forms dense / raw CSC triple (explicit zeros, duplicate entries) / '
-                'CSR / COO / list of fields / tuple of fields / list of sparse rows, with and without a grid, followed by 6-12 random '
+                'CSR / COO / csc_array / list of fields / tuple of fields / list of sparse rows, with and without a grid, followed by 6-12 random '
                 'operations (linear_combination, __getitem__ with int / slice / index list / mask incl. negative, out-of-range, '
                 'length-one selections, __add__, extend, append, to_sparse, to_dense, coefficients_for of A·c and of general y when '
                 'the modes are independent with cond <= 1e3). mirror cases: DeformableMirror (dense/sparse influence functions), '
